@@ -53,6 +53,8 @@ func verify(r *mon.Run, id string, e *signedexchange.Exchange, t time.Time, iden
 	return v, p
 }
 
+var readNo int
+
 func main() { mon.Main("C02", run) }
 
 func run(r *mon.Run) {
@@ -198,14 +200,23 @@ func run(r *mon.Run) {
 		}
 		var back *signedexchange.Exchange
 		// the file is read through a different kind of reader from case to case: bytes.Reader, one byte per Read, a reader without any optional method
-		var src io.Reader = bytes.NewReader(buf.Bytes())
-		switch i % 3 {
+		// (and a bytes.Buffer). The memory the file was read from is the caller's and is overwritten as soon as
+		// ReadExchange has returned, before the result is looked at.
+		mem := append([]byte{}, buf.Bytes()...)
+		var src io.Reader = bytes.NewReader(mem)
+		readNo++
+		switch readNo % 4 {
 		case 1:
-			src = iotest.OneByteReader(bytes.NewReader(buf.Bytes()))
+			src = iotest.OneByteReader(bytes.NewReader(mem))
 		case 2:
-			src = struct{ io.Reader }{bytes.NewReader(buf.Bytes())}
+			src = struct{ io.Reader }{bytes.NewReader(mem)}
+		case 3:
+			src = bytes.NewBuffer(mem)
 		}
 		p, pv = r.Call(fmt.Sprintf("read/%d", i), buf.Bytes(), func() { back, err = signedexchange.ReadExchange(src) })
+		for k := range mem {
+			mem[k] = 0xCC
+		}
 		if p || err != nil {
 			bad("UNREADABLE", fmt.Sprintf("ReadExchange rejects what Write produced: %v %v", err, pv))
 			continue
